@@ -10,9 +10,15 @@ def run(rep: Report, repo: Repo, tier: str) -> None:
                "CRLF clause: only its structural parts are decided (C04-R5: the one length-sensitive sink fed from doccomment text, the "
                "@module name, is trimmed of CR; C04-R6: no LF-only multi-character matching); that every other CR stays at a line "
                "end is a property of run-time strings")
-    atn_rules.rule_skipped_tokens(rep, repo, "C04-R1", tier)
-    misc_rules.rule_position_independence(rep, repo, "C04-R2")
-    misc_rules.rule_case_folding(rep, repo, "C04-R3")
-    misc_rules.rule_clean_parameters(rep, repo, "C04-R4x", "C04-R4")
-    misc_rules.rule_module_name_trim(rep, repo, "C04-R5")
-    misc_rules.rule_no_lf_only_matching(rep, repo, "C04-R6")
+    with rep.isolated():
+        atn_rules.rule_skipped_tokens(rep, repo, "C04-R1", tier)
+    with rep.isolated():
+        misc_rules.rule_position_independence(rep, repo, "C04-R2")
+    with rep.isolated():
+        misc_rules.rule_case_folding(rep, repo, "C04-R3")
+    with rep.isolated():
+        misc_rules.rule_clean_parameters(rep, repo, "C04-R4x", "C04-R4")
+    with rep.isolated():
+        misc_rules.rule_module_name_trim(rep, repo, "C04-R5")
+    with rep.isolated():
+        misc_rules.rule_no_lf_only_matching(rep, repo, "C04-R6")
